@@ -148,6 +148,47 @@ impl EntrySink<RootMetric<Work>> for RecSink {
     }
 }
 
+/// The roles of the scenario's objects, for the "due" rule of C06.
+#[derive(Clone)]
+struct Roles {
+    owners: Vec<String>,
+    guards: Vec<String>,
+    forces: Vec<String>,
+}
+impl Roles {
+    fn of(all: &[String]) -> Roles {
+        Roles {
+            owners: all.iter().filter(|n| n.as_str() == "owner" || n.starts_with('h')).cloned().collect(),
+            guards: all.iter().filter(|n| n.starts_with('g')).cloned().collect(),
+            forces: all.iter().filter(|n| n.starts_with('f')).cloned().collect(),
+        }
+    }
+    /// owner and every handle gone, and (all flush guards gone or some force-flush guard gone)
+    fn due(&self, gone: &BTreeMap<String, bool>) -> bool {
+        let g = |n: &String| gone.get(n).copied().unwrap_or(false);
+        self.owners.iter().all(g) && (self.guards.iter().all(g) || self.forces.iter().any(g))
+    }
+}
+
+/// "At the moment": called by a dropper right after one of its drops returned. If the drops
+/// that have *returned* so far already make the entry due and no other drop is in flight (a drop
+/// in progress may hold a temporary reference - `Weak::upgrade` in the force guard - and then
+/// carries out the append itself before it returns), it must have been appended: each reference
+/// to the value is released inside one of those drop calls, the last of them appends.
+fn check_timely(flags: &Flags, sink: &RecSink, roles: &Roles) {
+    let finished = flags.finished();
+    let in_flight = flags.started().len() != finished.len();
+    if !in_flight && roles.due(&finished) {
+        sink.shadow.touch();
+        if sink.appended.lock().unwrap().is_empty() {
+            mc::violation(
+                "not-appended-when-due",
+                format!("the drops of {:?} have returned, which makes the entry due, but it has not been appended", finished.keys().collect::<Vec<_>>()),
+            );
+        }
+    }
+}
+
 /// One droppable object of the scenario.
 enum Obj {
     Owner(metrique::AppendAndCloseOnDrop<Work, RecSink>),
@@ -164,7 +205,8 @@ unsafe impl Send for Obj {}
 /// C06. cfg.threads = [[obj, ...], ...]: which objects each thread drops, in order. Object
 /// names: "owner" | "h1" | "h2" (handles; the owner is converted) | "g1" | "g2" | "f1" | "f2".
 /// cfg.pre = objects main drops before spawning; cfg.late_guard: create "g2" only after the pre
-/// drops (a guard created after a force guard was dropped).
+/// drops (a guard created after a force guard was dropped); cfg.hold = objects main keeps alive
+/// until every thread has been joined (then drops them in order).
 pub fn c06(cfg: &J) {
     let threads: Vec<Vec<String>> = cfg["threads"]
         .as_array()
@@ -174,7 +216,9 @@ pub fn c06(cfg: &J) {
         .collect();
     let pre: Vec<String> = cfg["pre"].as_array().map(|a| a.iter().map(|s| s.as_str().unwrap().to_string()).collect()).unwrap_or_default();
     let late_guard = cfg["late_guard"].as_bool().unwrap_or(false);
-    let all: Vec<String> = threads.iter().flatten().chain(pre.iter()).cloned().collect();
+    let hold: Vec<String> = cfg["hold"].as_array().map(|a| a.iter().map(|s| s.as_str().unwrap().to_string()).collect()).unwrap_or_default();
+    let all: Vec<String> = threads.iter().flatten().chain(pre.iter()).chain(hold.iter()).cloned().collect();
+    let roles = Roles::of(&all);
     let flags = Arc::new(Flags::default());
     let sink = RecSink::new(flags.clone());
     let mut owner = Work::default().append_on_drop(sink.clone());
@@ -201,6 +245,7 @@ pub fn c06(cfg: &J) {
         flags.start(name);
         drop(o);
         flags.finish(name);
+        check_timely(flags, &sink, &roles);
     };
     for name in &pre {
         if name == "owner" {
@@ -231,11 +276,13 @@ pub fn c06(cfg: &J) {
         .map(|names| {
             let mine: Vec<(String, Obj)> = names.iter().map(|n| (n.clone(), objs.remove(n).unwrap_or_else(|| panic!("HARNESS: object {n} missing")))).collect();
             let flags = flags.clone();
+            let (sink, roles) = (sink.clone(), roles.clone());
             thread::spawn(move || {
                 for (name, o) in mine {
                     flags.start(&name);
                     drop(o);
                     flags.finish(&name);
+                    check_timely(&flags, &sink, &roles);
                 }
             })
         })
@@ -243,12 +290,15 @@ pub fn c06(cfg: &J) {
     for h in handles {
         h.join().unwrap();
     }
+    check_timely(&flags, &sink, &roles);
+    for name in &hold {
+        let o = objs.remove(name).unwrap_or_else(|| panic!("HARNESS: held object {name} missing"));
+        drop_obj(name, o, &flags);
+    }
     drop(objs);
     // ---- oracle
     let appended = sink.appended.lock().unwrap().clone();
-    let owners: Vec<&String> = all.iter().filter(|n| n.as_str() == "owner" || n.starts_with('h')).collect();
-    let guards: Vec<&String> = all.iter().filter(|n| n.starts_with('g')).collect();
-    let forces: Vec<&String> = all.iter().filter(|n| n.starts_with('f')).collect();
+    let (owners, guards, forces) = (&roles.owners, &roles.guards, &roles.forces);
     mc::outcome(format!(
         "{} append(s); at append started={:?}",
         appended.len(),
